@@ -13,6 +13,13 @@ Tie:
   spec sources (harness/c09_specsrc.py): one function getting its specs from -T, -A, -R, repeated options,
       patterns overlapping plain names, duplicate and unordered indices: the writer's list (libmcount) against the
       reader's list (info file + setup_fstack_args) in H1 / H3 / H5, model Uft.Argbuf.writerList / readerList.
+  readable-region cache (harness/c09_memregion.py): histories of mmap / PROT_NONE / munmap / sbrk / string writes / queries
+      against the real check_mem_region and the real capture path (H1 ops MRMAP / MRUNMAP / MRBRK / MRSTR / MRQ), stepped
+      against Uft.MemRegion with the /proc/self/maps of each instant; e2e programs whose pointers become valid over time;
+      directed C09-S3 (heap rounding -> SIGSEGV, KNOWN-FINDING) and C09-STALE (never invalidated cache, guarded).
+  agent (harness/c09_agent.py): record --agent --keep-pid + `uftrace live -p PID <update>` while the program waits on a
+      fifo; the calls after the update against the program's own log.  H4 tie of the deep copy the agent makes: driver op
+      DCOPY (uftrace_deep_copy_triggers on the tree of every H1 process) = the same tree (c09_deep_copy_preserves_spec_order).
 Findings: F6 (NULL stored as "NULL"), S1 (stores before the size check: slice overrun),
 C09-TRIGRET / C09-TRIGAUTO / C09-OLDFMT (the info file does not describe the layout libmcount used),
 C09-DUMPF80 (raw dump of a 10-byte long double through an 8-byte temporary).
@@ -50,6 +57,15 @@ def _load_specsrc():
 
 
 SS = None        # harness/c09_specsrc.py, loaded by run()
+MRF = None       # harness/c09_memregion.py (address-space histories against check_mem_region), loaded by run()
+
+
+def _load_memregion(name="c09_memregion"):
+    sp = importlib.util.spec_from_file_location(name, os.path.join(C.VERIF, "harness", name + ".py"))
+    m = importlib.util.module_from_spec(sp)
+    sp.loader.exec_module(m)
+    m.bind(sys.modules[__name__])
+    return m
 
 
 # ---------------------------------------------------------------------------------------------
@@ -1254,8 +1270,10 @@ def run(ctx):
     ctx.snapshot()
     thorough = ctx.tier == "thorough"
     kf = {f["id"]: f for f in C.known_findings("C09")}
-    global SS
+    global SS, MRF
     SS = _load_specsrc()
+    MRF = _load_memregion()
+    AGF = _load_memregion("c09_agent")
 
     exe, log = h1.build(ctx, "normal", driver="h1_c09_driver.c", out="h1c09")
     if not exe:
@@ -1289,9 +1307,25 @@ def run(ctx):
             st = p.case.strings()
             p.pre_ops = ["XTA %s %s %s" % (SS.hexs(st["T"]), SS.hexs(st["A"]), SS.hexs(st["R"]))]
         procs += src_procs
+        # H4 tie of the agent's deep copy (c09_deep_copy_preserves_spec_order): every process copies the trigger tree
+        # libmcount built from its option set and prints both trees
+        for p in procs:
+            p.pre_ops = list(getattr(p, "pre_ops", [])) + ["DCOPY"]
         with ThreadPoolExecutor(12) as ex2:
             list(ex2.map(lambda ip: run_proc(ctx, exe, lay, ip[1], ip[0]), enumerate(procs)))
-        made_ok, make_log = fut_make.result()
+        # the readable-region cache against a changing address space (own rng stream: the families above keep
+        # the cases they had before this family existed)
+        import random as _random
+        _saved_rng = ctx.rng
+        ctx.rng = _random.Random("c09-memregion-%d" % ctx.seed)
+        try:
+            mr_cov = MRF.run_family(ctx, exe, kf, thorough)
+            made_ok, make_log = fut_make.result()
+            mr_cov["e2e"] = MRF.run_e2e(ctx, made_ok, thorough)
+            ctx.rng = _random.Random("c09-agent-%d" % ctx.seed)
+            agent_cov = AGF.run_family(ctx, made_ok, thorough)
+        finally:
+            ctx.rng = _saved_rng
 
     # M6: the traced program must survive whatever pointer it passes ("an unreadable string pointer is shown
     # as an address instead of faulting the traced program")
@@ -1321,6 +1355,30 @@ def run(ctx):
     procs = [p for p in procs if not p.failed]
     if not procs:
         return C.finish(ctx)
+    dcopy = {"trees": 0, "filters": 0, "lists_with_2_or_more_specs": 0, "differ": 0}
+    for p in procs:
+        dk = kv(p.pre_out[-1]) if getattr(p, "pre_out", None) else {}
+        if "orig" not in dk:
+            continue
+        dcopy["trees"] += 1
+        fl = [f for f in dk["orig"].split(";") if f and f != "-"]
+        dcopy["filters"] += len(fl)
+        dcopy["lists_with_2_or_more_specs"] += sum(1 for f in fl if "," in f)
+        if dk["orig"] != dk.get("copy") or dk.get("pargs") != "1" or len({*dk.get("counts", "0/0:0/0").split(":")[0].split("/")}) != 1:
+            dcopy["differ"] += 1
+            if dcopy["differ"] <= 3:
+                of, cf = dk["orig"].split(";"), dk.get("copy", "").split(";")
+                bad = [(a, b) for a, b in zip(of, cf) if a != b][:3]
+                C.violation(ctx, "dcopy-" + p.name, {
+                    "kind": "property-violated-on-implementation",
+                    "what": "uftrace_deep_copy_triggers (what the libmcount agent installs after `uftrace live -p PID ...`) "
+                            "does not return the same tree: after an agent update the writer lays the payload out by the "
+                            "copied lists, the readers by the info file",
+                    "env": {k: v for k, v in p.env().items() if len(v) < 1500},
+                    "first_differing_filters (start-end:flags:depth[idx/fmt/size/exact/type/reg-or-ofs/regcnt/type name,...])":
+                        [{"original": a, "copy": b} for a, b in bad],
+                    "pargs_point_to_own_list": dk.get("pargs"), "counts": dk.get("counts"),
+                    "theorem": "c09_deep_copy_preserves_spec_order / c09_deep_copy_tree"})
 
     # ---- model, all four variants -------------------------------------------------------------
     # the variants are tried in turn (today's expected one first); the remaining ones are only run for the
@@ -1633,6 +1691,9 @@ def run(ctx):
         "calls_out_of_bounds": len(mon["bounds"]),
         "h3": {k: v for k, v in h3.items() if k != "violations"},
         "h5": h5,
+        "memregion": mr_cov,
+        "agent": agent_cov,
+        "deep_copy_tie": dcopy,
         "spec_sources": {k: v for k, v in src.items() if k != "violations"},
         "exhaustive": False,
         "samples": samples,
@@ -1641,9 +1702,15 @@ def run(ctx):
         "x86-64 SysV: integer arguments in rdi..r9 then stack words, floating point in xmm0..7 (low 64 bits)",
         "a string pointer accepted by check_mem_region points to a NUL-terminated string whose first 99 bytes "
         "(or all bytes up to the NUL) are readable",
-        "check_mem_region: the model uses the specified verdict (readable iff the first byte lies in a mapped readable "
-        "region [start, end)) for the string pools, the pages around a PROT_NONE page and around an unmapped hole; the "
-        "heap/stack rounding heuristics of the /proc/self/maps cache are not probed",
+        "check_mem_region: the Argbuf model uses the specified verdict (readable iff the first byte lies in a mapped readable "
+        "region [start, end)) for the string pools, the pages around a PROT_NONE page and around an unmapped hole; the cache "
+        "as coded (Uft.MemRegion) is stepped against the real check_mem_region over address-space histories in the mr family. "
+        "Kept out of the random histories (they fault the traced program with the code as it is): a cached region that was "
+        "unmapped (C09-STALE, directed + guarded), the slack behind the program break (C09-S3, directed), strings running into "
+        "an unreadable page (C09-PAGECROSS), the 8 MB slack below the stack; VMAs of one arena slot always start at the slot "
+        "base (no nested cache entries)",
+        "agent family: the update is taken as installed 1 s after the client returned (a slower agent makes the case pass "
+        "vacuously, never fail)",
         "H3 compares the default `uftrace replay` text (no colour, no JSON); floats are rendered by Python's %f",
         "spec sources: pattern matching (regexec / fnmatch / strcmp) is evaluated by Python's re / fnmatch / == on the check "
         "side and enters the model as the set of matched functions; the auto-args table / DWARF is an opaque function of the "
